@@ -67,6 +67,9 @@ func lemma_prefixPreserved(r *Rule, s string) {
 //@   pure
 //@   requires spec_wellFormed(r)
 //@   ensures result == r.inflected(s)
+//@   lit 1 framed
+//@   lit 1 ensures result == r.inflected(s)
+//@   note the memoised computation itself (the literal handed to sync.OnceValue) IS verified: it returns r.inflected(s) and stores nothing - in particular it plants no cache entry for another word (the result for a word must not depend on which words were inflected before: C20 "pure function of its input"); what stays trusted is that LoadOrStore/OnceValue hand back what that literal computes
 
 // Spec_inflectorOK: every registered rule is initialised (what Register / package initialisation establishes).
 func Spec_inflectorOK(i *Inflector) bool {
